@@ -57,6 +57,7 @@ type envSpec struct {
 	Cwd   string            // in-process: working directory ("" = as started)
 	Umask int               // in-process: umask (-1 = as started)
 	Cpus  int               // process: number of CPUs in the affinity mask (0 = as the parent)
+	Host  string            // process: host name, set inside a UTS namespace of its own ("" = as the parent)
 }
 
 func ambientVars(which string) map[string]string {
@@ -95,7 +96,7 @@ func ambientEnvs(root string) []envSpec {
 func processEnvs() []envSpec {
 	return []envSpec{
 		{Name: "process:cpus=1", Group: "process", Cpus: 1},
-		{Name: "process:cpus=2+ambient=B", Group: "process", Cpus: 2, Vars: ambientVars("B")},
+		{Name: "process:cpus=2+ambient=B+hostname", Group: "process", Cpus: 2, Vars: ambientVars("B"), Host: "validator-b"},
 		{Name: "process:GOMAXPROCS=3+ambient=A", Group: "process", Vars: ambientVars("A")},
 	}
 }
@@ -357,6 +358,7 @@ type childSpec struct {
 	Ops        []childOp `json:"ops"`
 	CreatePass []byte    `json:"create_pass"`
 	Create     bool      `json:"create"`
+	Hostname   string    `json:"hostname,omitempty"` // set it first (the process was started in its own UTS namespace)
 }
 
 type childRes struct {
@@ -372,6 +374,7 @@ type childRes struct {
 type childOut struct {
 	NumCPU     int        `json:"num_cpu"`
 	GoMaxProcs int        `json:"gomaxprocs"`
+	Hostname   string     `json:"hostname"`
 	Ops        []childRes `json:"ops"`
 	Created    childRes   `json:"created"`
 }
@@ -392,6 +395,9 @@ func TestChild(t *testing.T) {
 	if err := json.Unmarshal(bz, &spec); err != nil {
 		t.Fatal(err)
 	}
+	if spec.Hostname != "" {
+		_ = syscall.Sethostname([]byte(spec.Hostname)) // the parent reads what os.Hostname reports afterwards
+	}
 	cryptotest.SetGlobalRandom(t, spec.Seed)
 	root, err := os.MkdirTemp("", "c19-child-")
 	if err != nil {
@@ -399,6 +405,7 @@ func TestChild(t *testing.T) {
 	}
 	defer os.RemoveAll(root)
 	out := childOut{NumCPU: runtime.NumCPU(), GoMaxProcs: runtime.GOMAXPROCS(0)}
+	out.Hostname, _ = os.Hostname()
 	for i, op := range spec.Ops {
 		dir := filepath.Join(root, fmt.Sprintf("op%d", i))
 		if err := os.MkdirAll(dir, 0o700); err != nil {
@@ -510,16 +517,45 @@ func allowedCPUs() []int {
 	return out
 }
 
-// runChild re-executes this test binary as environment e. The affinity is set with taskset(1); if that is impossible
-// (no taskset, fewer CPUs) the CPU count is imposed through the GOMAXPROCS variable instead and `how` says so.
-func runChild(exe, root string, idx int, e envSpec, spec childSpec) (out childOut, how string, err error) {
-	sp := filepath.Join(root, fmt.Sprintf("child-%d.json", idx))
+// childProc is a started child process.
+type childProc struct {
+	name string
+	how  string
+	cmd  *exec.Cmd
+	msg  *bytes.Buffer
+	sp   string
+}
+
+// startChild re-executes this test binary as environment e and returns as soon as the process exists (everything that
+// reads this process's globals happens before it returns). The affinity is set with taskset(1); if that is impossible
+// (no taskset, fewer CPUs) the CPU count is imposed through the GOMAXPROCS variable instead and `how` says so; likewise
+// for the host name when no UTS namespace can be created.
+func startChild(exe, root string, idx int, e envSpec, spec childSpec) (*childProc, error) {
+	if e.Host != "" {
+		spec.Hostname = e.Host
+		if p, err := startChildOnce(exe, root, idx, e, spec, true); err == nil {
+			p.how += "; hostname set in a new UTS namespace"
+			return p, nil
+		}
+		spec.Hostname = ""
+		p, err := startChildOnce(exe, root, idx, e, spec, false)
+		if err == nil {
+			p.how += "; hostname unchanged (no UTS namespace available)"
+		}
+		return p, err
+	}
+	return startChildOnce(exe, root, idx, e, spec, false)
+}
+
+func startChildOnce(exe, root string, idx int, e envSpec, spec childSpec, newUTS bool) (*childProc, error) {
+	p := &childProc{name: e.Name, sp: filepath.Join(root, fmt.Sprintf("child-%d.json", idx)), msg: &bytes.Buffer{}}
+	_ = os.Remove(p.sp + ".out")
 	bz, err := json.Marshal(spec)
 	if err != nil {
-		return out, "", err
+		return nil, err
 	}
-	if err := os.WriteFile(sp, bz, 0o600); err != nil {
-		return out, "", err
+	if err := os.WriteFile(p.sp, bz, 0o600); err != nil {
+		return nil, err
 	}
 	args := []string{"-test.run", "^TestChild$", "-test.timeout", "0"}
 	env := map[string]string{}
@@ -531,9 +567,9 @@ func runChild(exe, root string, idx int, e envSpec, spec childSpec) (out childOu
 	for k, v := range e.Vars {
 		env[k] = v
 	}
-	env["VERIF_C19_CHILD"] = sp
+	env["VERIF_C19_CHILD"] = p.sp
 	name := exe
-	how = "environment variables"
+	p.how = "environment variables"
 	if e.Cpus > 0 {
 		cpus := allowedCPUs()
 		ts, lerr := exec.LookPath("taskset")
@@ -544,28 +580,48 @@ func runChild(exe, root string, idx int, e envSpec, spec childSpec) (out childOu
 			}
 			name, args = ts, append([]string{"-c", strings.Join(l, ","), exe}, args...)
 			delete(env, "GOMAXPROCS")
-			how = "taskset -c " + strings.Join(l, ",")
+			p.how = "taskset -c " + strings.Join(l, ",")
 		} else {
 			env["GOMAXPROCS"] = strconv.Itoa(e.Cpus)
-			how = "GOMAXPROCS variable (no taskset or too few CPUs)"
+			p.how = "GOMAXPROCS variable (no taskset or too few CPUs)"
 		}
 	}
-	cmd := exec.Command(name, args...)
-	cmd.Dir = root
+	p.cmd = exec.Command(name, args...)
+	p.cmd.Dir = root
+	p.cmd.Stdout, p.cmd.Stderr = p.msg, p.msg
+	if newUTS {
+		p.cmd.SysProcAttr = &syscall.SysProcAttr{Cloneflags: syscall.CLONE_NEWUTS}
+	}
 	keys := make([]string, 0, len(env))
 	for k := range env {
 		keys = append(keys, k)
 	}
 	sort.Strings(keys)
 	for _, k := range keys {
-		cmd.Env = append(cmd.Env, k+"="+env[k])
+		p.cmd.Env = append(p.cmd.Env, k+"="+env[k])
 	}
-	msg, rerr := cmd.CombinedOutput()
-	res, err := os.ReadFile(sp + ".out")
+	if err := p.cmd.Start(); err != nil {
+		return nil, err
+	}
+	return p, nil
+}
+
+func (p *childProc) wait() (out childOut, err error) {
+	rerr := p.cmd.Wait()
+	res, err := os.ReadFile(p.sp + ".out")
 	if err != nil {
-		return out, how, fmt.Errorf("child %s produced no result (%v): %s", e.Name, rerr, tail(string(msg), 400))
+		return out, fmt.Errorf("child %s produced no result (%v): %s", p.name, rerr, tail(p.msg.String(), 400))
 	}
-	return out, how, json.Unmarshal(res, &out)
+	return out, json.Unmarshal(res, &out)
+}
+
+func runChild(exe, root string, idx int, e envSpec, spec childSpec) (out childOut, how string, err error) {
+	p, err := startChild(exe, root, idx, e, spec)
+	if err != nil {
+		return out, "", err
+	}
+	out, err = p.wait()
+	return out, p.how, err
 }
 
 func tail(s string, n int) string {
@@ -744,14 +800,13 @@ func envPhase(t *testing.T, r *vf.Run, root string, g *goldenFile, tally func(vf
 	}
 
 	// (a) in-process sweep, group by group
-	groups := [][]envSpec{procsEnvs(thorough), ambientEnvs(root)}
 	var parentFiles []envFile // written as-started: what the child processes get
-	for _, grp := range groups {
+	sweep := func(grp []envSpec) bool {
 		var files []envFile
 		for _, a := range grp {
 			if err := ctl.apply(a); err != nil {
 				r.EngineError("cannot enter environment " + a.Name + ": " + err.Error())
-				return
+				return false
 			}
 			for _, p := range savePs {
 				f := writeIn(r, root, a.Name, p, importP)
@@ -764,7 +819,7 @@ func envPhase(t *testing.T, r *vf.Run, root string, g *goldenFile, tally func(vf
 		for _, b := range grp {
 			if err := ctl.apply(b); err != nil {
 				r.EngineError("cannot enter environment " + b.Name + ": " + err.Error())
-				return
+				return false
 			}
 			var cs []*tcase
 			for _, f := range files {
@@ -791,19 +846,23 @@ func envPhase(t *testing.T, r *vf.Run, root string, g *goldenFile, tally func(vf
 		}
 		res.bounds["environments_"+grp[0].Group] = names
 		res.bounds["ordered_pairs_"+grp[0].Group] = len(grp) * len(grp) * len(savePs)
+		ctl.restore()
+		return true
 	}
-	ctl.restore()
+	if !sweep(ambientEnvs(root)) {
+		return
+	}
 
-	// (b) other processes, side by side (they do not share this process's globals)
+	// (b) other processes: started here, with this process's globals as they were at its start, and collected after
+	// the GOMAXPROCS sweep (they share nothing with this process; only their exit is awaited meanwhile)
 	pes := processEnvs()
 	type childRun struct {
 		cases []*tcase
+		proc  *childProc
 		out   childOut
-		how   string
 		err   error
 	}
 	runs := make([]childRun, len(pes))
-	var wg sync.WaitGroup
 	for i, e := range pes {
 		var spec childSpec
 		spec.Seed = 1910 + uint64(i)
@@ -817,13 +876,17 @@ func envPhase(t *testing.T, r *vf.Run, root string, g *goldenFile, tally func(vf
 		for _, c := range runs[i].cases {
 			spec.Ops = append(spec.Ops, childOp{Op: c.Op, File: c.File, Pass: c.LoadPass})
 		}
-		wg.Add(1)
-		go func(i int, e envSpec, spec childSpec) {
-			defer wg.Done()
-			runs[i].out, runs[i].how, runs[i].err = runChild(exe, root, i, e, spec)
-		}(i, e, spec)
+		runs[i].proc, runs[i].err = startChild(exe, root, i, e, spec)
 	}
-	wg.Wait()
+	ok := sweep(procsEnvs(thorough))
+	for i := range runs {
+		if runs[i].proc != nil {
+			runs[i].out, runs[i].err = runs[i].proc.wait()
+		}
+	}
+	if !ok {
+		return
+	}
 	procInfo := map[string]any{}
 	for i, e := range pes {
 		cr := runs[i]
@@ -831,7 +894,7 @@ func envPhase(t *testing.T, r *vf.Run, root string, g *goldenFile, tally func(vf
 			r.EngineError(fmt.Sprintf("child process %s: %v (%d of %d results)", e.Name, cr.err, len(cr.out.Ops), len(cr.cases)))
 			continue
 		}
-		procInfo[e.Name] = map[string]any{"set_by": cr.how, "runtime.NumCPU": cr.out.NumCPU, "runtime.GOMAXPROCS": cr.out.GoMaxProcs}
+		procInfo[e.Name] = map[string]any{"set_by": cr.proc.how, "runtime.NumCPU": cr.out.NumCPU, "runtime.GOMAXPROCS": cr.out.GoMaxProcs, "os.Hostname": cr.out.Hostname}
 		for j, c := range cr.cases {
 			sec := "process_cases"
 			if c.Section == "golden" {
